@@ -111,7 +111,7 @@ func c13Pinning(c *evid.Ctx) {
 					park.Release()
 					select {
 					case <-done:
-					case <-time.After(15 * time.Second):
+					case <-time.After(60 * time.Second):
 						c.Violation("C13:pinned-reader-stuck", "reader did not return after release", replay)
 					}
 				}
